@@ -215,6 +215,14 @@ package connmgr
 //@ loop 3 invariant forall c network.Conn :: has(inf.conns, c) && visited(3, c) ==> (exists j int :: 0 <= j && j < len(selected) && selected[j] == c)
 //@ loop 3 invariant forall j int :: 0 <= j && j < len(selected) ==> (exists i int :: 0 <= i && i <= idx2 && has(candidates[i].conns, selected[j]))
 //@ loop 3 invariant forall j int :: 0 <= j && j < len(selected) ==> !has(cm.protected, selected[j].RemotePeer())
+// the accounting behind the trim target, as per-step deltas (prev(e) = value when the iteration started): an appended
+// candidate adds exactly its number of connections to ncandidates; the target starts at ncandidates - lowWater and
+// every processed candidate takes exactly its number of connections off it ("at most lowWater connections remain among
+// the eligible peers" is the induction over these steps, it is not a single obligation)
+//@ loop 1 iteration len(candidates) <= prev(len(candidates)) + 1 &&
+//@         ncandidates == prev(ncandidates) + ite(len(candidates) > prev(len(candidates)), len(inf.conns), 0)
+//@ loop 2 invariant idx2 == 0 ==> target == ncandidates - cm.cfg.lowWater
+//@ loop 2 iteration target == prev(target) - len(inf.conns)
 //@ modifies segment.peers
 
 // one trim: closes exactly the connections getConnsToClose returned, hence never a connection of a protected peer
